@@ -1,14 +1,14 @@
 SPECIFICATION Spec
 CONSTANTS
-  NW = 3
+  NW = 2
   NC = 2
-  Inc = {0,1,12}
+  Inc = {1,12}
   Thr = 10
   Mode = "any"
   Contig = TRUE
   Hows = {"set","obs"}
   NatStep = 10
-  ObsPos = {9,11,19,21,31}
+  ObsPos = {9,11,19,21}
   Export = FALSE
 INVARIANT TxRunLicensed
 CONSTRAINT Emit
